@@ -149,7 +149,9 @@ impl LogState {
         let topdir = env::current_dir()?;
         let mut lines_written: i64 = 0;
         let mut interrupted: i64 = 0;
-        if !self.already.insert(t.to_string()) {
+        // Every spelling of a target (`x`, `../x` seen from a subdirectory) is
+        // the same log: show it once.
+        if !self.already.insert(t.normpath().to_string()) {
             return Ok(0);
         }
         if t.as_str() != "-" {
